@@ -617,10 +617,19 @@ func decisionTable(fn *ssa.Function, atoms map[string]string, resultIdx int, wan
 		}
 	}
 	sortStrings(names)
+	type natom struct {
+		name string
+		pol  bool
+	}
+	norm := map[string]natom{}
+	for k, n := range atoms {
+		nk, pol := normCond(k)
+		norm[nk] = natom{n, pol}
+	}
 	atomOf := func(c string) (string, bool, bool) {
 		nc, pol := normCond(c)
-		if n, ok := atoms[nc]; ok {
-			return n, pol, true
+		if a, ok := norm[nc]; ok {
+			return a.name, pol == a.pol, true
 		}
 		// the atom may have been given in its != spelling
 		neg := false
